@@ -65,6 +65,19 @@ Definition as_row (t : tree) : option (N -> sv) :=
   | _ => None
   end.
 
+(* the standard table of the harness: id = 1..9, x in {NULL,1,2} (major), y in {NULL,'a','b'} *)
+Definition std_rows : list (N -> sv) :=
+  let xs := [SNull; SInt 1; SInt 2] in
+  let ys := [SNull; SText [97%N]; SText [98%N]] in
+  map (fun ixy : nat * (sv * sv) =>
+         fun n : N => if N.eqb n 0 then SInt (Z.of_nat (S (fst ixy))) else if N.eqb n 1 then fst (snd ixy) else snd (snd ixy))
+      (combine (seq 0 9) (list_prod xs ys)).
+Definition as_rows (t : tree) : option (list (N -> sv)) :=
+  match t with
+  | I 0 => Some std_rows
+  | _ => as_list_of as_row t
+  end.
+
 (* ---- encoding ---- *)
 Definition of_sv (v : sv) : tree :=
   match v with SNull => L [I 0] | SInt z => L [I 1; I z] | SText s => L (I 2 :: map of_N s) end.
@@ -118,7 +131,7 @@ Definition run_case (t : tree) : tree :=
   match t with
   | L [I way; td; tl; te; tp; I mode; tlists; trows] =>
       match as_dialect td, as_lhs tl, as_position tp,
-            as_list_of (as_list_of as_value) tlists, as_list_of as_row trows with
+            as_list_of (as_list_of as_value) tlists, as_rows trows with
       | Some d, Some l, Some p, Some lists, Some rows =>
           match as_expr l te with
           | Some e =>
